@@ -313,7 +313,15 @@ def run_case(case, rec):
         wide = fam == "generated" and case["i"] % 2 == 0
         if wide:
             ctx["label-ids"] = "wide"
-        df = p2.parse_cif_atoms(emit.emit_cif(rows, label_asym="wide" if wide else "auth"))
+        decimals = 3
+        if fam == "generated" and case["i"] % 3 == 0:
+            # mmCIF coordinates with more decimals than a PDB field holds: fitting renames, it does not round
+            decimals = 5
+            ctx["coordinate-decimals"] = 5
+            for k, r in enumerate(rows):
+                for c in "xyz":
+                    r[c] = round(r[c] + ((k * 37 + ord(c)) % 89) * 1e-5, 5)
+        df = p2.parse_cif_atoms(emit.emit_cif(rows, label_asym="wide" if wide else "auth", decimals=decimals))
     _drive(rec, df, rows, ctx, src)
 
 
